@@ -420,12 +420,7 @@ def cell_text(c):
 # ---------------------------------------------------------------------------
 
 def enc_str(s):
-    """ASCII strings travel as one numeral (1 c1 .. ck in base 256, see TransformTables.decode_str)"""
-    if s and all(0 < ord(ch) < 256 for ch in s) or s == "":
-        n = 1
-        for ch in s:
-            n = n * 256 + ord(ch)
-        return "decode_str %d" % n
+    """strings travel as literal code-point lists (one big numeral per string is 3x slower for coqc to read)"""
     return vlib.strlit(s)
 
 
@@ -548,6 +543,8 @@ def check(run, replay):
     presets = sorted({c["preset"] for c in cases})
     exprs = ["sel_names %s" % vlib.strlit(p) for p in presets]
     keys = []
+    confirm = {}
+    which_of = {}
     for i, (c, r) in enumerate(zip(cases, res)):
         if not r.get("ok"):
             continue
@@ -576,12 +573,16 @@ def check(run, replay):
                     pix[key] = len(pats)
                     pats.append("expandN tbl %s" % vlib.nlist(idx))
                 which.append(pix[key])
+            small = len(rend) * len(cells) <= 250
+            full = ("C12_check (%s, %s, map (fun i => nth (N.to_nat i) pats []) %s) %s"
+                    % (vlib.strlit(c["preset"]), vlib.strlit(col), vlib.nlist(which), vlib.strlist(obs)))
+            confirm[(i, col)] = "let tbl := %s in let pats := [%s] in %s" % (enc_list(tbl), "; ".join(pats), full)
             exprs.append(
-                "let tbl := %s in let pats := [%s] in let rend := map (fun i => nth (N.to_nat i) pats []) %s in "
-                "(C12_check (%s, %s, rend) %s, map keep_row rend, "
+                "let tbl := %s in let pats := [%s] in (%s, map keep_row pats, "
                 "map (fun s => option_map (fun q => (Qnum q, Zpos (Qden q))) (parse_cell s)) %s)"
-                % (enc_list(tbl), "; ".join(pats), vlib.nlist(which), vlib.strlit(c["preset"]), vlib.strlit(col),
-                   vlib.strlist(obs), enc_list([cell_text(x) for x in cells])))
+                % (enc_list(tbl), "; ".join(pats), full if small else "true",
+                   enc_list([cell_text(x) for x in cells])))
+            which_of[(i, col)] = (which, small)
             keys.append((i, col))
     vals = vlib.coq_eval("C12", HEADER, exprs, shard=24 if run.tier == "quick" else 40, jobs=12)
     model_sel = dict(zip(presets, vals[:len(presets)]))
@@ -595,7 +596,7 @@ def check(run, replay):
     stats = {"columns": 0, "transformed_columns": 0, "values_vs_translated_expr": 0, "values_vs_reading": 0,
              "nonfinite_values": 0, "decisions_vs_independent_values": 0, "excluded_rounding_sensitive_values": 0,
              "excluded_rounding_sensitive_decisions": 0, "names_without_reading": 0, "names_without_translation": 0,
-             "parse_cells": 0}
+             "parse_cells": 0, "C12_check_in_coq": 0}
     fam_ok = {"names (C12_check on the implementation's rendered values)": True, "union (transformer_collection)": True,
               "parse (get_vals)": True, "values vs translated formula": True, "values vs reading of the name": True,
               "keep/drop vs independently computed values": True, "appended columns carry the rendered values": True}
@@ -661,7 +662,10 @@ def check(run, replay):
                 viol("values vs translated formula", one_col(c, col), impl=bad[0][1],
                      clause="formula %r evaluates to a column" % bad[0][0])
                 continue
-            chk, rows, parses = model_col[(i, col)]
+            chk, prow, parses = model_col[(i, col)]
+            which, small = which_of[(i, col)]
+            rows = [prow[w] for w in which]
+            stats["C12_check_in_coq"] += 1 if small else 0
             # -- parse
             xs = []
             grammar_ok = True
@@ -688,8 +692,15 @@ def check(run, replay):
             cand = {col + k: k for k in coll_names}
             obs = sorted(nm for nm in new if nm in cand)
             claimed.update(obs)
+            exp = sorted(col + k for k, row in zip(coll_names, rows) if row[0])
+            if chk and exp != obs:
+                # large columns: the per-column set comparison is done here on the Coq-computed keep verdicts; a
+                # disagreement is confirmed by the Coq checker C12_check itself
+                chk = vlib.coq_eval("C12c", HEADER, [confirm[(i, col)]])[0]
+                stats["C12_check_in_coq"] += 1
+                if chk:
+                    raise vlib.Broken("harness: C12_check accepts what the per-row verdicts reject", repr((exp, obs))[:1500])
             if not chk:
-                exp = sorted(col + k for k, row in zip(coll_names, rows) if row[0])
                 diff = sorted(set(exp) ^ set(obs))
                 k0 = cand.get(diff[0]) if diff else None
                 j = coll_names.index(k0) if k0 in coll_names else 0
